@@ -8,6 +8,7 @@ import (
 	"context"
 	"errors"
 	"fmt"
+	"runtime"
 	"sync"
 	"sync/atomic"
 	"testing"
@@ -31,6 +32,10 @@ func c11IsCtxCause(c string) bool { return c == "cancel" || c == "deadline" }
 var c11Kinds = []string{"connect", "pub1", "pub2", "sub", "unsub", "ping", "disconnect"}
 var c11Causes = []string{"cancel", "deadline", "localClose", "peerClose", "malformed"}
 
+// cause "disconnect": no context ends and no link fails; the application calls Disconnect (with a context of its
+// own) while the other calls wait. Disconnect does not wait for the peer, so it returns, the link is closed by it,
+// and the waiting calls fail.
+
 // c11Grid enumerates every (call, step, cause) cell that exists.
 func c11Grid() []c11Case {
 	var out []c11Case
@@ -49,6 +54,12 @@ func c11Grid() []c11Case {
 			if !c11IsCtxCause(cause) && k != "disconnect" {
 				// Transport.Write itself blocks; only the end of the link can release it
 				out = append(out, c11Case{Calls: []c11Call{{k, "write"}}, Cause: cause})
+			}
+		}
+		if k != "disconnect" && k != "connect" {
+			out = append(out, c11Case{Calls: []c11Call{{k, "wait"}}, Cause: "disconnect"})
+			if k == "pub2" {
+				out = append(out, c11Case{Calls: []c11Call{{k, "wait2"}}, Cause: "disconnect"})
 			}
 		}
 	}
@@ -145,6 +156,19 @@ func c11Run(tb rapid.TB, c c11Case) {
 			r.conn.peerClose(false)
 		case "malformed":
 			r.peer.sendRaw([]byte{0xF0, 0x00}, "malformed")
+		case "disconnect":
+			dctx, dc := context.WithTimeout(context.Background(), 50*time.Millisecond)
+			dret := make(chan error, 1)
+			go func() { dret <- r.cli.Disconnect(dctx) }()
+			select {
+			case <-dret:
+			case <-time.After(20 * time.Second):
+				dc()
+				cancel()
+				r.conn.Close()
+				vFailf(tb, map[string]interface{}{"log": r.log.strings(60), "goroutines": vGoroutineDump()}, "Disconnect still blocked 20 s after it was called (its own context ended after 50 ms) while %v were waiting for their acknowledgements", c.Calls)
+			}
+			dc()
 		}
 	}
 	var dlCancel context.CancelFunc
@@ -350,9 +374,11 @@ func TestVerifC11_Grid(t *testing.T) {
 // TestVerifC11_Combo: 2..6 calls of mixed kinds blocked at once on one client, one cause.
 func TestVerifC11_Combo(t *testing.T) {
 	vRun(t, "C11", vOpts{CurFile: true, ReplayReps: 20}, func(rt *rapid.T) c11Case {
-		c := c11Case{Cause: rapid.SampledFrom(c11Causes).Draw(rt, "cause")}
+		c := c11Case{Cause: rapid.SampledFrom(append([]string{"disconnect"}, c11Causes...)).Draw(rt, "cause")}
 		n := rapid.IntRange(2, 6).Draw(rt, "n")
-		write := !c11IsCtxCause(c.Cause) && rapid.IntRange(0, 4).Draw(rt, "write") == 0
+		// (a call parked inside Transport.Write holds the write lock: Disconnect has to wait for the transport there,
+		// like any other writer; that combination says nothing about the library)
+		write := !c11IsCtxCause(c.Cause) && c.Cause != "disconnect" && rapid.IntRange(0, 4).Draw(rt, "write") == 0
 		for i := 0; i < n; i++ {
 			k := rapid.SampledFrom([]string{"pub1", "pub2", "pub2", "sub", "unsub", "ping"}).Draw(rt, "kind")
 			st := "wait"
@@ -571,4 +597,78 @@ func TestVerifC11_ReconnectGrid(t *testing.T) {
 			Cause: rapid.SampledFrom([]string{"cancel", "deadline"}).Draw(rt, "cause"),
 		}
 	}, c11RcRun)
+}
+
+// ---------------------------------------------------------------------------
+// liveness of the reader under concurrent API use: nothing may block for ever
+
+type c11LiveCase struct {
+	Inbound    int `json:"inbound"`    // inbound QoS2 exchanges (PUBLISH + PUBREL) and QoS1 messages
+	Goroutines int `json:"goroutines"` // application goroutines polling Done/Err, re-registering the handler, publishing QoS0
+	Calls      int `json:"calls"`
+	Procs      int `json:"procs"`
+}
+
+func c11LiveRun(tb rapid.TB, c c11LiveCase) {
+	old := runtime.GOMAXPROCS(c.Procs)
+	defer runtime.GOMAXPROCS(old)
+	r := newBaseRig()
+	defer r.shutdown()
+	r.peer.auto = bpeerBrokerAuto
+	r.cli.Handle(HandlerFunc(func(*Message) {}))
+	r.connect(tb)
+	ctx, cancel := context.WithCancel(context.Background())
+	defer cancel()
+	var wg sync.WaitGroup
+	for g := 0; g < c.Goroutines; g++ {
+		g := g
+		wg.Add(1)
+		go func() {
+			defer wg.Done()
+			for i := 0; i < c.Calls; i++ {
+				switch (g + i) % 4 {
+				case 0:
+					_ = r.cli.Done()
+				case 1:
+					_ = r.cli.Err()
+				case 2:
+					r.cli.Handle(HandlerFunc(func(*Message) {}))
+				default:
+					_ = r.cli.Publish(ctx, &Message{Topic: "live", Payload: []byte("x")})
+				}
+			}
+		}()
+	}
+	wg.Add(1)
+	go func() {
+		defer wg.Done()
+		for k := 0; k < c.Inbound; k++ {
+			id := 1 + k%50000
+			r.peer.send(refPacket{Type: rtPublish, QoS: 2, ID: id, Topic: "in", Payload: []byte("x")})
+			r.peer.send(refPacket{Type: rtPubRel, ID: id})
+			if k%3 == 0 {
+				r.peer.send(refPacket{Type: rtPublish, QoS: 1, ID: id, Topic: "in", Payload: []byte("y")})
+			}
+		}
+	}()
+	donech := make(chan struct{})
+	go func() { wg.Wait(); close(donech) }()
+	select {
+	case <-donech:
+	case <-time.After(30 * time.Second):
+		dump := vGoroutineDump()
+		cancel()
+		vFailf(tb, map[string]interface{}{"goroutines": dump}, "application calls (Done/Err/Handle/Publish) are still blocked after 30 s while inbound QoS2 traffic is being processed: dead-lock")
+	}
+	if !r.peer.sync(30 * time.Second) {
+		vFailf(tb, map[string]interface{}{"log": r.log.strings(20), "goroutines": vGoroutineDump()}, "the reader stopped processing inbound packets (marker not acknowledged within 30 s, link up); Err()=%v", r.cli.Err())
+	}
+	vCount("C11", true, vJSON(c), []string{"liveness"}, func() interface{} { return c })
+}
+
+func TestVerifC11_Liveness(t *testing.T) {
+	vRun(t, "C11", vOpts{CurFile: true, ReplayReps: 20}, func(rt *rapid.T) c11LiveCase {
+		return c11LiveCase{Inbound: rapid.IntRange(100, 600).Draw(rt, "inbound"), Goroutines: rapid.IntRange(2, 8).Draw(rt, "goroutines"),
+			Calls: rapid.IntRange(200, 2000).Draw(rt, "calls"), Procs: rapid.SampledFrom([]int{2, 4, 16}).Draw(rt, "procs")}
+	}, c11LiveRun)
 }
